@@ -388,7 +388,7 @@ func runC16Matcher(c *Ctx) {
 	var mj struct {
 		ProblemMatcher []struct {
 			Pattern []struct {
-				Regexp                              string
+				Regexp                            string
 				File, Line, Column, Message, Code int
 			}
 		}
